@@ -79,6 +79,58 @@ func wrapperGuards(w *ssa.Function, guards map[string]core.Guard) (map[string]bo
 	return out, true
 }
 
+// dispatchTable decodes the session dispatcher: for each client message kind the bound handler
+// method and the wrapper closures around it. Returns nil when the shape is not recognised.
+type dispatchEntry struct {
+	Kind     string
+	Handler  *ssa.Function // $bound wrapper
+	Wrappers []*ssa.Function
+	Pos      string
+	OK       bool
+}
+
+func (c *Ctx) dispatchTable() (fn *ssa.Function, entries []dispatchEntry, nDispatchers int) {
+	ccmT := c.P.NamedType("server", "ClientComMessage")
+	if ccmT == nil {
+		c.lost("type server.ClientComMessage")
+	}
+	for _, f := range c.P.ModFuncs {
+		if !core.InPkg(f, "server") || f.Signature.Recv() == nil || !isPtrToNamed(f.Signature.Recv().Type(), "Session") {
+			continue
+		}
+		found := false
+		core.AllInstrs(f, func(in ssa.Instruction) {
+			call, ok := in.(*ssa.Call)
+			if !ok || call.Call.IsInvoke() {
+				return
+			}
+			phi, ok := call.Call.Value.(*ssa.Phi)
+			if !ok {
+				return
+			}
+			sig, ok := phi.Type().Underlying().(*types.Signature)
+			if !ok || sig.Params().Len() != 1 {
+				return
+			}
+			if p, ok := sig.Params().At(0).Type().(*types.Pointer); !ok || !types.Identical(p.Elem(), ccmT) {
+				return
+			}
+			found = true
+			fn = f
+			for i, ev := range phi.Edges {
+				pred := phi.Block().Preds[i]
+				kind := caseKind(pred, ccmT)
+				ws, m, ok := handlerChain(ev)
+				entries = append(entries, dispatchEntry{kind, m, ws, c.P.Pos(ev.Pos()), ok && kind != ""})
+			}
+		})
+		if found {
+			nDispatchers++
+		}
+	}
+	return
+}
+
 func checkC11(c *Ctx) {
 	r := c.R
 	r.Explanation = "Structural necessary conditions of 'sessions act only within their handshake/authentication state', decided per request (so they hold for every sequence): (1) in the session dispatcher every value that can reach the final dynamic handler call is decoded as wrappers(bound method); per client-message kind (the ClientComMessage field whose non-nil test selects the case) the wrappers must include the version guard (Session.ver != 0) and, except for login/acc/hi/note, the user guard (AsUser != \"\"); the {note} handler itself drops silently behind both tests; (2) on-behalf-of: every store to ClientComMessage.AsUser/AuthLvl in the dispatcher whose value does not derive from Session.uid/authLvl is cut off when the authLvl==LevelRoot edge is removed; (3) writer census: Session.ver is written only in the handshake handler (non-zero only behind ver==0), Session.uid/authLvl are set to an authenticated value only in the post-login function behind FeatureNoLogin==0 and len(missing)==0 and are otherwise only reset to zero or set on freshly allocated proxy sessions; (4) the post-login call in the login handler is cut off when any of {session not yet authenticated, Authenticate err==nil, state/validation err==nil, challenge==nil} edges is removed; (5) sender header: at session and at topic, before the hand-off/Save, head[\"sender\"] is either assigned from the session's own uid or deleted."
